@@ -78,6 +78,41 @@ type c20Spec struct {
 	V2    []c20Field `json:"v2"`
 	Rows  int        `json:"rows"`
 	Feat  []string   `json:"feat"` // features used (for histograms / exclusions)
+	// configuration the history runs under (nil = defaults) and the value lists of the two AutoMigrate calls: "hub" stands
+	// for the generated model, every other entry is a relation kind whose RELATED model is passed explicitly (c20Relatives);
+	// empty = the generated model alone.  See c20_opts.go for what each setting may switch off.
+	Cfg    *c20Cfg  `json:"cfg,omitempty"`
+	Extra1 []string `json:"extra1,omitempty"`
+	Extra2 []string `json:"extra2,omitempty"`
+}
+
+// c20CallArgs: the value list of one AutoMigrate call
+func c20CallArgs(hub interface{}, extra []string) []interface{} {
+	if len(extra) == 0 {
+		return []interface{}{hub}
+	}
+	var out []interface{}
+	for _, e := range extra {
+		if e == "hub" {
+			out = append(out, hub)
+		} else if m, ok := c20Relatives[e]; ok {
+			out = append(out, m)
+		}
+	}
+	return out
+}
+
+func c20Explicit(sets ...[]string) map[string]bool {
+	out := map[string]bool{}
+	for _, s := range sets {
+		for _, e := range s {
+			if e == "powner" {
+				e = "owner"
+			}
+			out[e] = true
+		}
+	}
+	return out
 }
 
 var c20Kinds = map[string]reflect.Type{
@@ -91,11 +126,12 @@ var c20Kinds = map[string]reflect.Type{
 	"owner": reflect.TypeOf(C20Owner{}), "powner": reflect.TypeOf((*C20Owner)(nil)), "org": reflect.TypeOf(C20Org{}),
 	"toys": reflect.TypeOf([]C20Toy(nil)), "badge": reflect.TypeOf(C20Badge{}), "tags": reflect.TypeOf([]C20Tag(nil)),
 	"audit": reflect.TypeOf(C20Audit{}), "stamp": reflect.TypeOf(C20Stamp{}),
+	"pics": reflect.TypeOf([]*C20Pic(nil)),
 }
 
 func c20IsRel(kind string) bool {
 	switch kind {
-	case "owner", "powner", "org", "toys", "badge", "tags":
+	case "owner", "powner", "org", "toys", "badge", "tags", "pics":
 		return true
 	}
 	return false
@@ -339,14 +375,25 @@ func c20RunHistory(sp c20Spec) (out c20Outcome) {
 	if err != nil {
 		return c20Outcome{Stage: "type-v2", Err: err.Error()}
 	}
-	db, rec := c20Open(sp.Table)
+	cfg := sp.Cfg.get()
+	db, rec := c20OpenCfg(sp.Table, cfg)
 	if sq, e := db.DB(); e == nil {
 		defer sq.Close()
 	}
+	plain := cfg.Naming == "" // the structural expectations of c20_exist.go are written for the default naming strategy
 	m1 := reflect.New(t1).Interface()
 	m2 := reflect.New(t2).Interface()
+	args1, args2 := c20CallArgs(m1, sp.Extra1), c20CallArgs(m2, sp.Extra2)
+	dem1 := c20Demanded(sp.V1, cfg, c20Explicit(sp.Extra1))
+	dem2 := c20Demanded(sp.V2, cfg, c20Explicit(sp.Extra1, sp.Extra2))
+	noFK := func(w c20Want) c20Want {
+		if cfg.DisableFK || cfg.IgnoreRel { // both switch the foreign-key constraints off (and nothing else of the table itself)
+			w.FK = nil
+		}
+		return w
+	}
 	// --- migrate(v1)
-	if err := db.AutoMigrate(m1); err != nil {
+	if err := c20Handle(db, cfg).AutoMigrate(args1...); err != nil {
 		// the generator only emits models SQLite can hold (exclusion list in c20_gen.go): a refusal is a failure
 		return c20Outcome{Stage: "v1-rejected", Err: err.Error(), Verdict: "AutoMigrate(v1) on an empty database returned an error", Observed: err.Error(), Master: c20Master(db, rec)}
 	}
@@ -357,7 +404,11 @@ func c20RunHistory(sp c20Spec) (out c20Outcome) {
 	oldCols := append([]string(nil), st.Schema.DBNames...)
 	// --- insert rows
 	for i := 0; i < sp.Rows; i++ {
-		if err := db.Create(c20Record(t1, sp.V1, i).Interface()).Error; err != nil {
+		row := c20Record(t1, sp.V1, i)
+		if err := c20Nest(db, row, dem1, i); err != nil {
+			return c20Outcome{Stage: "nest-v1", Err: err.Error()}
+		}
+		if err := db.Create(row.Interface()).Error; err != nil {
 			return c20Outcome{Stage: "insert-rejected", Err: err.Error(), Verdict: "the table AutoMigrate(v1) created rejects a record of the v1 model", Observed: err.Error(), Master: c20Master(db, rec)}
 		}
 	}
@@ -367,7 +418,7 @@ func c20RunHistory(sp c20Spec) (out c20Outcome) {
 	}
 	// --- (A) migrate(v1) again: no schema-changing statement
 	rec.Reset()
-	err = db.AutoMigrate(m1)
+	err = c20Handle(db, cfg).AutoMigrate(args1...)
 	out.Second = c20SchemaStmts(rec.Snapshot())
 	if err != nil {
 		out.Stage, out.Err = "second", err.Error()
@@ -390,13 +441,13 @@ func c20RunHistory(sp c20Spec) (out c20Outcome) {
 	}
 	// what v1 declares exists on the table CreateTable produced
 	{
-		w1 := c20WantOf(sp.Table, sp.V1, nil)
+		w1 := noFK(c20WantOf(sp.Table, sp.V1, nil))
 		cls := map[string]string{}
 		for _, f := range sp.V1 {
 			cls[c20ColName(f.Name, f.Tag)] = c20Class(f.Kind)
 		}
 		// (the behavioural probes need two rows: histories with fewer rows are not judged here)
-		if v, e, o := "", "", ""; sp.Rows >= 2 {
+		if v, e, o := "", "", ""; sp.Rows >= 2 && plain {
 			v, e, o = c20JudgeStructure(db, rec, sp.Table, w1, true, cls)
 			if v != "" {
 				out.Stage, out.Verdict, out.Expected, out.Observed = "v1-exists", v, e, o
@@ -404,15 +455,22 @@ func c20RunHistory(sp c20Spec) (out c20Outcome) {
 				return
 			}
 		}
-		if v, e, o := c20JudgeAsk(db, m1, w1, true); v != "" {
-			out.Stage, out.Verdict, out.Expected, out.Observed = "v1-exists", v, e, o
-			out.Master = c20Master(db, rec)
-			return
+		if v, e, o := "", "", ""; true {
+			if !plain {
+				w1 = c20Want{}
+			}
+			v, e, o = c20JudgeAsk(db, m1, w1, true, cfg.DisableFK || cfg.IgnoreRel)
+			if v != "" {
+				out.Stage, out.Verdict, out.Expected, out.Observed = "v1-exists", v, e, o
+				out.Master = c20Master(db, rec)
+				return
+			}
 		}
 	}
 	// --- (B) migrate(v2)
+	others := c20DumpOthers(db, rec, sp.Table)
 	rec.Reset()
-	err = db.AutoMigrate(m2)
+	err = c20Handle(db, cfg).AutoMigrate(args2...)
 	out.V2DDL = c20SchemaStmts(rec.Snapshot())
 	if err != nil {
 		out.Stage, out.Err = "v2", err.Error()
@@ -430,6 +488,11 @@ func c20RunHistory(sp c20Spec) (out c20Outcome) {
 		out.Expected, out.Observed = canon(before), canon(after)
 		return
 	}
+	if t, e, o := c20OthersKept(db, rec, others); t != "" {
+		out.Stage, out.Verdict = "v2", "existing rows of the related table "+t+" changed across AutoMigrate(v2)"
+		out.Expected, out.Observed = e, o
+		return
+	}
 	st2 := &gorm.Statement{DB: db}
 	if err := st2.Parse(m2); err != nil {
 		return c20Outcome{Stage: "v2-parse", Err: err.Error()}
@@ -445,20 +508,16 @@ func c20RunHistory(sp c20Spec) (out c20Outcome) {
 		}
 	}
 	// a v2 record is accepted and returned
+	// … including its associations, wherever the AutoMigrate calls must have produced the related tables (c20_opts.go)
 	recv := c20Record(t2, sp.V2, sp.Rows+3)
-	if err := db.Create(recv.Interface()).Error; err != nil {
-		out.Stage, out.Err, out.Verdict = "v2-create", err.Error(), "migrated table rejects a record of the v2 model"
+	stg, vd, ex, ob, got := c20CreateNested(db, rec, st2.Schema, recv, dem2, sp.Rows+3)
+	switch stg {
+	case "":
+	case "nest":
+		return c20Outcome{Stage: "nest-v2", Err: ob}
+	default:
+		out.Stage, out.Err, out.Verdict, out.Expected, out.Observed = "v2-"+stg, ob, strings.Replace(vd, "of the model", "of the v2 model", 1), ex, ob
 		out.Master = c20Master(db, rec)
-		return
-	}
-	got := reflect.New(t2)
-	q := db.Session(&gorm.Session{NewDB: true})
-	for _, pf := range st2.Schema.PrimaryFields {
-		v, _ := pf.ValueOf(db.Statement.Context, recv)
-		q = q.Where("`"+pf.DBName+"` = ?", v)
-	}
-	if err := q.Take(got.Interface()).Error; err != nil {
-		out.Stage, out.Err, out.Verdict = "v2-read", err.Error(), "record of the v2 model cannot be read back"
 		return
 	}
 	for i, f := range sp.V2 {
@@ -481,7 +540,7 @@ func c20RunHistory(sp c20Spec) (out c20Outcome) {
 	for _, f := range sp.V1 {
 		oldNames[f.Name] = true
 	}
-	want := c20WantOf(sp.Table, sp.V2, oldNames)
+	want := noFK(c20WantOf(sp.Table, sp.V2, oldNames))
 	{ // latitude: an index NAME that v1 already declared with other members is a CHANGED index, not an added one:
 		// AutoMigrate looks indexes up by name and leaves it alone; the property only speaks about additions.
 		w1 := c20WantOf(sp.Table, sp.V1, nil)
@@ -508,11 +567,16 @@ func c20RunHistory(sp c20Spec) (out c20Outcome) {
 		out.Master = c20Master(db, rec)
 		return out
 	}
+	if !plain {
+		want = c20Want{}
+	}
 	if v, e, o := c20JudgeStructure(db, rec, sp.Table, want, false, classOf); v != "" {
 		return fail("v2-exists", v, e, o)
 	}
-	if v, e, o := c20JudgeAsk(db, m2, want, false); v != "" {
-		return fail("v2-exists", v, e, o)
+	if v, e, o := "", "", ""; plain {
+		if v, e, o = c20JudgeAsk(db, m2, want, false, cfg.DisableFK || cfg.IgnoreRel); v != "" {
+			return fail("v2-exists", v, e, o)
+		}
 	}
 	// added columns with a declared non-NULL default: the existing rows carry a value (ADD COLUMN used the full definition)
 	for _, wc := range want.Cols {
@@ -536,7 +600,7 @@ func c20RunHistory(sp c20Spec) (out c20Outcome) {
 	}
 	beforeSettle, _ := c20Dump(db, rec, sp.Table, mig)
 	rec.Reset()
-	err = db.AutoMigrate(m2)
+	err = c20Handle(db, cfg).AutoMigrate(args2...)
 	out.Third = c20SchemaStmts(rec.Snapshot())
 	if err != nil {
 		out.Err = err.Error()
@@ -549,12 +613,12 @@ func c20RunHistory(sp c20Spec) (out c20Outcome) {
 	if v, e, o := c20JudgeStructure(db, rec, sp.Table, want, true, classOf); v != "" {
 		return fail("settle", v+" (even after a further AutoMigrate)", e, o)
 	}
-	if v, e, o := c20JudgeAsk(db, m2, want, true); v != "" {
+	if v, e, o := c20JudgeAsk(db, m2, want, true, cfg.DisableFK || cfg.IgnoreRel); v != "" {
 		return fail("settle", v+" (even after a further AutoMigrate)", e, o)
 	}
 	// --- (E) the database now matches v2: one more AutoMigrate(v2) must be silent
 	rec.Reset()
-	err = db.AutoMigrate(m2)
+	err = c20Handle(db, cfg).AutoMigrate(args2...)
 	out.Second = c20SchemaStmts(rec.Snapshot())
 	if err != nil {
 		out.Err = err.Error()
@@ -600,6 +664,27 @@ func c20Minimise(sp c20Spec, o c20Outcome) c20Spec {
 		return x.Stage == o.Stage && x.Verdict == o.Verdict && x.Err == o.Err
 	}
 	cur := sp
+	{ // configuration and call lists first: the defaults, then one setting at a time
+		for _, c := range []func(x *c20Spec){
+			func(x *c20Spec) { x.Cfg, x.Extra1, x.Extra2 = nil, nil, nil },
+			func(x *c20Spec) { x.Cfg = nil },
+			func(x *c20Spec) { x.Extra1 = nil },
+			func(x *c20Spec) { x.Extra2 = nil },
+			func(x *c20Spec) { c := x.Cfg.get(); c.Naming = ""; x.Cfg = &c },
+			func(x *c20Spec) { c := x.Cfg.get(); c.Prepare, c.SkipTx, c.Handle = false, false, ""; x.Cfg = &c },
+			func(x *c20Spec) { c := x.Cfg.get(); c.IgnoreRel = false; x.Cfg = &c },
+			func(x *c20Spec) { c := x.Cfg.get(); c.DisableFK = false; x.Cfg = &c },
+		} {
+			x := cur
+			c(&x)
+			if x.Cfg != nil && *x.Cfg == (c20Cfg{}) {
+				x.Cfg = nil
+			}
+			if canon(x) != canon(cur) && same(x) {
+				cur = x
+			}
+		}
+	}
 	if o.Stage == "second" {
 		c := cur
 		c.V2 = append([]c20Field(nil), c.V1...)
